@@ -28,13 +28,13 @@ const rule = "object sets: 0..28 triangles/segments (0..60 points for k-d trees,
 func TestProp(t *testing.T) {
 	runtime.GOMAXPROCS(2)
 	kit.Run(t, "C08", rule,
-		kit.Clause[coll3Case]{Name: "C08/collider3d/queries-vs-scan", Quick: 40000, Thorough: 800000, Fresh: true, Gen: genColl3, Check: checkColl3},
-		kit.Clause[coll2Case]{Name: "C08/collider2d/queries-vs-scan", Quick: 40000, Thorough: 800000, Fresh: true, Gen: genColl2, Check: checkColl2},
-		kit.Clause[sdf3Case]{Name: "C08/sdf3d/distance-vs-scan", Quick: 20000, Thorough: 400000, Fresh: true, Gen: genSDF3, Check: checkSDF3},
-		kit.Clause[sdf2Case]{Name: "C08/sdf2d/distance-vs-scan", Quick: 20000, Thorough: 400000, Fresh: true, Gen: genSDF2, Check: checkSDF2},
-		kit.Clause[treeCase]{Name: "C08/coordtree3d/queries-vs-scan", Quick: 30000, Thorough: 600000, Fresh: true, Gen: genTree(3), Check: checkTree},
-		kit.Clause[treeCase]{Name: "C08/coordtree2d/queries-vs-scan", Quick: 30000, Thorough: 600000, Fresh: true, Gen: genTree(2), Check: checkTree},
-		kit.Clause[groupCase]{Name: "C08/grouping/permutation", Quick: 30000, Thorough: 600000, Fresh: true, Gen: genGroup, Check: checkGroup},
-		kit.Clause[renderCase]{Name: "C08/render3d/cast-vs-scan", Quick: 25000, Thorough: 500000, Fresh: true, Gen: genRender, Check: checkRender},
+		kit.Clause[coll3Case]{Name: "C08/collider3d/queries-vs-scan", Quick: 40000, Thorough: 400000, Fresh: true, Gen: genColl3, Check: checkColl3},
+		kit.Clause[coll2Case]{Name: "C08/collider2d/queries-vs-scan", Quick: 40000, Thorough: 400000, Fresh: true, Gen: genColl2, Check: checkColl2},
+		kit.Clause[sdf3Case]{Name: "C08/sdf3d/distance-vs-scan", Quick: 20000, Thorough: 200000, Fresh: true, Gen: genSDF3, Check: checkSDF3},
+		kit.Clause[sdf2Case]{Name: "C08/sdf2d/distance-vs-scan", Quick: 20000, Thorough: 200000, Fresh: true, Gen: genSDF2, Check: checkSDF2},
+		kit.Clause[treeCase]{Name: "C08/coordtree3d/queries-vs-scan", Quick: 30000, Thorough: 300000, Fresh: true, Gen: genTree(3), Check: checkTree},
+		kit.Clause[treeCase]{Name: "C08/coordtree2d/queries-vs-scan", Quick: 30000, Thorough: 300000, Fresh: true, Gen: genTree(2), Check: checkTree},
+		kit.Clause[groupCase]{Name: "C08/grouping/permutation", Quick: 30000, Thorough: 300000, Fresh: true, Gen: genGroup, Check: checkGroup},
+		kit.Clause[renderCase]{Name: "C08/render3d/cast-vs-scan", Quick: 25000, Thorough: 250000, Fresh: true, Gen: genRender, Check: checkRender},
 	)
 }
